@@ -43,7 +43,7 @@ SmpOf(x) == LET ts == SetToSortSeq({u \in 0..MaxT : x.lay[u] # "-"}, LAMBDA a, b
 
 Hash(x) == (x.rng * 7 + (x.off + 3) * 13 + x.step * 17 + x.start * 19 + x.n * 23 + (IF x.pat = "zig" THEN 5 ELSE IF x.pat = "special" THEN 9 ELSE 0)
             + FoldSet(LAMBDA u, acc : acc + (IF x.lay[u] = "-" THEN 0 ELSE IF x.lay[u] = "f" THEN u + 1 ELSE 3 * (u + 1)), 0, 0..MaxT) * 29)
-FnOf(x) == Fns[((Hash(x) \div Mod) % Len(Fns)) + 1]
+FnOf(x) == Fns[Pick(Hash(x) + (Seed % 997) * 131, 1, Len(Fns)) + 1]
 
 Data(x) == << Series(<< <<"__name__", "m">>, <<"a", "x">> >>, SmpOf(x)),
               Series(<< <<"__name__", "decoy">>, <<"a", "x">> >>, <<Smp(0, "f", 7), Smp(MaxT, "f", 8)>>) >>
@@ -74,5 +74,5 @@ Interesting(x) ==
      \/ (r - x.rng \in 0..MaxT /\ x.lay[r - x.rng] # "-")
      \/ (r - x.rng - 1 \in 0..MaxT /\ x.lay[r - x.rng - 1] # "-")
      \/ (\E u \in 0..MaxT : x.lay[u] = "s" /\ u <= r /\ u >= r - x.rng)
-EmitWin == IF (Interesting(g) /\ Hash(g) % Mod = Seed % Mod) THEN Emit(ScnOf(g)) ELSE TRUE
+EmitWin == IF (Interesting(g) /\ Pick(Hash(g), 0, Mod) = Seed % Mod) THEN Emit(ScnOf(g)) ELSE TRUE
 =============================================================================
